@@ -270,7 +270,22 @@ def run(rep):
                           {"kind": "send", "args": list(args)})
             if len(rep.violations) >= 10:
                 return
-    rep.notes["monitored_executions"] = nruns
+    # one-preemption sweeps over the hand-off between the state machine thread and the transport thread
+    nsweep = 0
+    for kind, variants in (("transport/feed", ("plain",)), ("transport/psm", ("plain", "inbound", "partial")), ("psm/transport", ("plain", "inbound", "partial"))):
+        for variant in variants:
+            for k in range(0, 500):
+                verdict, info = assoc.run_send_sweep(kind, k, variant)
+                rep.case(("sweep", kind, variant, k))
+                nsweep += 1
+                if verdict:
+                    rep.violation(f"{kind.split('/')[0]} thread stopped after {k} line-level steps ({variant}) while the {kind.split('/')[1]} side proceeds: {verdict}",
+                                  {"kind": "sweep", "pair": kind, "k": k, "variant": variant})
+                    break
+                if info["ended"]:
+                    break
+    rep.notes["preemption_sweep_executions"] = nsweep
+    rep.notes["monitored_executions"] = nruns + nsweep
     # ---- T
     ntr = 60 if quick else 1000
     groups = {}
@@ -301,6 +316,8 @@ def replay(rep, path):
     nodemod.ensure_installed(0)
     if r["kind"] == "send":
         verdict, info = assoc.run_send(*r["args"])
+    elif r["kind"] == "sweep":
+        verdict, info = assoc.run_send_sweep(r["pair"], r["k"], r["variant"])
     else:
         events, verdict, info = record_run(r["seed"], r["subs"], r["per"], 3, r["plan"], r["inbound"])
     if verdict:
